@@ -240,6 +240,13 @@ def abs_instances(tier):
 def run_instance(inst):
     if inst[0] == 'greal':
         return run_real(inst)
+    if inst[0] == 'latlon_kernel':
+        # the position / distance of an emitting state on a lat-lon map is what dist_latlon.distance_point_to_segment returns for
+        # (observation, edge): the same one-call harness as C14 (exact angle algebra), on the street-scale families
+        from harness import C14
+        r = C14.run_instance(inst[1:])
+        r['name'] = 'latlon position kernel: ' + r['name']
+        return r
     # continue_with_distance after a COMPLETE match raises IndexError in best_last_matches: totality of that call is outside C05
     # (and outside C17, which is about match()); such paths are counted as exception_outside_claim, as in C09
     return gabs.run(inst, abs_claims, abs_witness, exc_is_violation=not any(o[0] == 'continue' for o in inst[3]))
@@ -248,18 +255,20 @@ def run_instance(inst):
 def main(tier):
     import_repo()
     from leuvenmapmatching.matcher import base as mb
-    from leuvenmapmatching.util import dist_euclidean as de, segment as sg
+    from leuvenmapmatching.util import dist_euclidean as de, segment as sg, dist_latlon as dll
     rep = Report(PID, tier)
     shims.selftest_halfnorm()
     rep.functions = src_hash(mb.BaseMatcher.do_stop, mb.BaseMatching.first, mb.BaseMatching.next, sg.Segment, mb.BaseMatcher._create_start_nodes,
-                             de.project, de.distance_point_to_segment, de.distance_segment_to_segment, de.distance)
+                             de.project, de.distance_point_to_segment, de.distance_segment_to_segment, de.distance, dll.distance_point_to_segment)
     from symx.common import fit_budget
     budget = fit_budget(len(real_instances(tier)), tier, 100, 100)
     rres = run_instances(run_instance, [('greal',) + i + (budget,) for i in real_instances(tier)])
+    kb = 60 if tier == 'quick' else 600
+    rres = list(rres) + list(run_instances(run_instance, [('latlon_kernel', k, kb) for k in ('dps_short_equator', 'dps_short_meridian', 'dps_near_start', 'dps_near_end')]))
     ares = gabs.run_all(rep, run_instance, abs_instances(tier), 60 if tier == 'quick' else 600, 16 * (40 if tier == 'quick' else 600))
     rep.bounds = dict(greal="layouts %s; T=2; observations symbolic (2-D on axis-parallel layouts or x symbolic on a fixed horizontal line); thresholds symbolic; three families; non-emitting on/off" % sorted(greal.LAYOUTS if tier != 'quick' else ['line2', 'corner3', 'oneway3', 'oneway4', 'zerolen3']),
                       gabs="cut-off claims over abstract geometry incl. widening history", budget_s=budget)
-    rep.outside = ["rounding at the thresholds", "latitude-longitude metric (C14 covers its kernels only structurally)", "layouts beyond the library"]
+    rep.outside = ["rounding at the thresholds", "latitude-longitude metric beyond the point-to-segment kernel on street-scale equatorial / meridian segments (angle algebra, shared with C14); lat-lon matching runs with uninterpreted trigonometry are C17's", "layouts beyond the library"]
     rep.assumptions = ["math.sqrt exact; isclose as |a-b|<=atol", "non-emitting distances: slack 1e-4 relative + 1e-6 on squared distances (as C13)"]
     gabs.collect(rep, list(rres) + list(ares), PID, need_tags=('nonempty', 'early_stop', 'abs_nonempty'))
     return rep.finish("symbolic execution of the real match() on a real InMemMap with the real planar kernels (SYMX, z3 nlsat): cut-offs and "
@@ -270,6 +279,9 @@ def replay_file(path):
     import json
     import_repo()
     d = json.load(open(path))
+    if d.get('kind') == 'c14':
+        from harness import C14
+        return C14.replay_file(path)
     if d.get('kind') == 'greal':
         inst = ('greal', d['layout'], d['cfg']['fam'], d['cfg']['T'], d['cfg']['ne'], '1d', {k: d['cfg'][k] for k in ('sym_maxdist', 'sym_init', 'sym_minprob')})
         cfg = Cfg(**d['cfg'])
